@@ -259,6 +259,64 @@ def run_real(ctx):
         ctx.count("real:jws-verifications", len(ver))
         step += 1
 
+    # ---- one call, several keys, ONE shared template object: every key gets its own entry ----
+    ops, meta = [], []
+    tmpls = [None, {}, {"protected": {"kid": "shared"}}, {"header": {"kid": "shared"}}, {"protected": {"typ": "JWT"}, "header": {"n": 1}}]
+    groups = [["oct-32", "oct-48", "oct-64"], ["EC-P256", "oct-32"], ["EC-P256", "EC-P384", "EC-P521"], ["oct-32", "RSA-2048"], ["EC-P256", "EC-P256-b"]]
+    for g in groups:
+        for t in tmpls:
+            for start in ({"payload": "cGF5bG9hZA"}, None):
+                a = {"jws": start, "jwk": [pool[k] for k in g], "_expect_ok": True, "_inferred": True, "_why": "%d keys, one template %s" % (len(g), json.dumps(t))}
+                if start is None:
+                    continue
+                if t is not None:
+                    a["sig"] = t
+                ops.append(("jws.sig", a))
+                meta.append((g, t))
+    real, model = C15.cmp_sig(ctx, ops, C03.p_sig)
+    ver = []
+    for (g, t), (o, a), r in zip(meta, ops, real):
+        if not r.get("ok"):
+            continue
+        ents = jws_entries(r["jws"])
+        if len(ents) != len(g):
+            ctx.pfails.append(("real:count", "%d keys signed in one call, %d entries: %s" % (len(g), len(ents), json.dumps(r["jws"])[:300]), o, C04.strip(a), r))
+            continue
+        if len({json.dumps(e, sort_keys=True) for e in ents}) != len(ents):
+            ctx.pfails.append(("real:shared-entry", "two entries of one multi-key call are the same object: %s" % json.dumps(r["jws"])[:300], o, C04.strip(a), r))
+        for j, k in enumerate(g):
+            ver.append(("jws.ver", {"jws": r["jws"], "sig": ents[j], "jwk": pool[k], "all": False, "_expect": True, "_why": "entry %d of a %d-key call" % (j, len(g))}))
+        ver.append(("jws.ver", {"jws": r["jws"], "jwk": [pool[k] for k in g], "all": True, "_expect": True, "_why": "all keys of a %d-key call" % len(g)}))
+    C15.cmp_sig(ctx, ver, C03.p_ver)
+    ctx.count("real:multi-key-sig", len(ops))
+    fresh = lambda n: {"kty": "oct", "k": G.b64u(rng.randbytes(n))}
+    wgroups = [("A128KW", [fresh(16), fresh(16), fresh(16)]), ("A128GCMKW", [fresh(16), fresh(16)]), ("ECDH-ES+A128KW", [pool["EC-P256"], pool["EC-P256-b"]]),
+               ("PBES2-HS256+A128KW", ["pw one", "pw two"]), ("RSA-OAEP", [pool["RSA-2048"], pool["RSA-2048-b"]])]
+    ops, meta = [], []
+    for w, ks in wgroups:
+        for t in ({"header": {"alg": w}}, {"header": {"alg": w, "cty": "x"}}):
+            jwe = {"protected": {"enc": "A128GCM"}}
+            if w.startswith("PBES2"):
+                jwe["protected"]["p2c"] = 1000
+            ops.append(("jwe.enc", {"jwe": jwe, "rcp": t, "jwk": list(ks), "pt": b"shared template".hex(), "rand": rng.randbytes(600).hex(),
+                                    "_wrap": "ECDH-ES" if w.startswith(("ECDH", "RSA")) else w, "_zip": False, "_expect_ok": True}))
+            meta.append(ks)
+    real, model = C04.cmp(ctx, ops, C04.p_enc)
+    dec = []
+    for ks, (o, a), r in zip(meta, ops, real):
+        if not r.get("ok"):
+            continue
+        ents = jwe_entries(r["jwe"])
+        if len(ents) != len(ks):
+            ctx.pfails.append(("real:count", "%d keys wrapped in one call, %d recipients" % (len(ks), len(ents)), o, C04.strip(a), r))
+            continue
+        if len({json.dumps(e, sort_keys=True) for e in ents}) != len(ents):
+            ctx.pfails.append(("real:shared-entry", "two recipients of one multi-key call are identical: %s" % json.dumps(r["jwe"])[:300], o, C04.strip(a), r))
+        for j, k in enumerate(ks):
+            dec.append(("jwe.dec", {"jwe": r["jwe"], "rcp": ents[j], "jwk": k, "rand": "00" * 600, "_pt": a["pt"], "_why": "recipient %d of a %d-key call" % (j, len(ks))}))
+    C04.cmp(ctx, dec, C04.p_dec)
+    ctx.count("real:multi-key-enc", len(ops))
+
     # ---- JWE: recipients added one by one, content encryption, then one more recipient (re-wrap) ----
     wraps = [("A128KW", "oct-16"), ("A192KW", "oct-24"), ("A256GCMKW", "oct-32"), ("ECDH-ES+A128KW", "EC-P256"),
              ("ECDH-ES+A256KW", "EC-P521"), ("RSA-OAEP", "RSA-2048"), ("RSA-OAEP-256", "RSA-2048-b"), ("PBES2-HS256+A128KW", "pw")]
